@@ -100,22 +100,66 @@ func VerifHarness_C10_O2() {
 	verifReach("end")
 }
 
-// C10/O3 — only members of a round's set are witnesses (creator not in the
-// set of the event's round => not a witness), on a real small DAG where the
-// set effective from round 1 excludes validator B.
+// C10/O3 — only members of a round's set are witnesses.  A real three-validator
+// gossip history is run through the real pipeline with a validator set change
+// (validator `out` removed from round `from` on); in every round >= from the
+// removed validator's events are never witnesses, members' first events of a
+// round are, and the removed validator's events are still inserted.
 func VerifHarness_C10_O3() {
-	d := verifBuildDAG(1, 1)
-	vn := d.vn
-	h := vn.h
-	// round 0 set = {A,B}; from a symbolic round on, only {A}
-	from := verifNondetInt("from")
-	verifAssume(from >= 1 && from < 1<<30)
-	onlyA := peers.NewPeerSet([]*peers.Peer{vn.peers[0]})
-	if err := h.Store.SetPeerSet(from, onlyA); err != nil {
+	vn := verifNewNet(3, 100)
+	out := verifChoice("removed", 3)
+	from := 1 + verifChoice("from", 2)
+	var rest []*peers.Peer
+	for i, p := range vn.peers {
+		if i != out {
+			rest = append(rest, p)
+		}
+	}
+	if err := vn.h.Store.SetPeerSet(from, peers.NewPeerSet(rest)); err != nil {
 		panic(err)
 	}
-	wA, errA := h.witness(d.chains[0][0].Hex())
-	wB, errB := h.witness(d.chains[1][0].Hex())
-	verifAssert("members-first-events-are-witnesses", errA == nil && errB == nil && wA && wB)
+	last := []string{"", "", ""}
+	idx := []int{0, 0, 0}
+	var evs []*Event
+	for lvl := 0; lvl < 7; lvl++ {
+		for c := 0; c < 3; c++ {
+			other := ""
+			if lvl > 0 || c > 0 {
+				other = last[(c+2)%3]
+			}
+			ev := vn.mkEvent(c, last[c], other, idx[c], nil)
+			if err := vn.insertAndRun(ev); err != nil {
+				panic(err)
+			}
+			last[c] = ev.Hex()
+			idx[c]++
+			evs = append(evs, ev)
+		}
+	}
+	verifAssert("history-reaches-the-change", vn.store.LastRound() >= from)
+	seenWitness := map[string]bool{}
+	for _, ev := range evs {
+		r, err := vn.h.round(ev.Hex())
+		if err != nil {
+			panic(err)
+		}
+		ri, err := vn.store.GetRound(r)
+		if err != nil {
+			panic(err)
+		}
+		re := ri.CreatedEvents[ev.Hex()]
+		creatorOut := ev.Creator() == vn.peers[out].PubKeyString()
+		if r >= from && creatorOut {
+			verifAssert("non-member-is-never-a-witness", !re.Witness)
+		} else {
+			key := fmt.Sprintf("%s-%d", ev.Creator(), r)
+			if !seenWitness[key] {
+				verifAssert("members-first-event-of-round-is-witness", re.Witness)
+				seenWitness[key] = true
+			} else {
+				verifAssert("later-event-of-round-is-not-witness", !re.Witness)
+			}
+		}
+	}
 	verifReach("end")
 }
